@@ -1,5 +1,6 @@
 import TextxVerif.Proofs.ObjBuild
 import TextxVerif.Proofs.ObjChildren
+import TextxVerif.Proofs.ObjClassTbl
 /-!
 # C05 — containment links and the model navigation API are consistent
 
@@ -20,6 +21,13 @@ theorems quantify.
 the parent pointers; reference attributes are arbitrary (cycles, back references).
 `Reach h fol r x` = `x` is `r` or is reached from `r` through containment attributes, every
 object on the way (except `r`) satisfying `fol`.
+
+Histories (Obj/ClassTbl.lean): the navigation functions read `_tx_attrs` from the *class object*
+of every element at the time of the call, and class objects outlive meta-models (user classes are
+handed to one meta-model after the other, each re-initialising them).  `getChildrenH hist ph …` is
+the call after the history `hist` of meta-model constructions on the plain Python objects `ph`;
+the `C05_history_*` theorems say that only the construction that set the model's classes up last
+counts, so all theorems above (stated for every heap) hold for every model after every history.
 -/
 namespace Obj
 
@@ -165,6 +173,107 @@ container's chain, and the chain of a parentless object is empty. -/
 theorem C05_ancestors_contained {h : Heap} (T : TreeHeap h) :
     (∀ p c, c ∈ contIds h p → anc h c = p :: anc h p) ∧ (∀ r, parentOf h r = none → anc h r = []) :=
   ⟨fun p c hc => anc_of_parent T.parent_lt (T.parent_of_cont p c hc), fun _ hr => anc_of_root T.parent_lt hr⟩
+
+/-! ## histories of meta-models: class objects that serve several grammars -/
+
+/-- **Only the meta-model that initialised the model's classes last counts.**  `pre`: any
+meta-models constructed earlier — with the same user classes set up for *other* grammars (more,
+fewer or differently typed containment attributes), with generated classes of the same names, in
+any number; `b`: the construction that initialises every class of the objects `ph`; `post`: later
+constructions that leave those class objects alone or re-initialise them with the same attribute
+list (a second meta-model of the same grammar).  Then the heap the navigation functions operate
+on is the one given by `b` alone: nothing of `pre` is visible. -/
+theorem C05_history_view (pre post : List MMBuild) (b : MMBuild) (ph : PHeap)
+    (hb : ∀ o ∈ ph, o.cls ∈ b.classes)
+    (hpost : ∀ b' ∈ post, ∀ o ∈ ph, ∀ as, (o.cls, as) ∈ b' → tblAfter [b] o.cls = some as) :
+    ph.view (tblAfter (pre ++ b :: post)) = ph.view (tblAfter [b]) := by
+  apply view_congr
+  intro o ho
+  exact tblAfter_at pre post b (fun c => ∃ o ∈ ph, o.cls = c) (by rintro c ⟨o, ho, rfl⟩; exact hb o ho)
+    (by rintro b' hb' c as ⟨o, ho, rfl⟩ hm; exact hpost b' hb' o ho as hm) o.cls ⟨o, ho, rfl⟩
+
+/-- … hence every navigation function returns after the history what it returns in a process in
+which `b` is the only meta-model ever built. -/
+theorem C05_history_navigation (pre post : List MMBuild) (b : MMBuild) (ph : PHeap)
+    (hb : ∀ o ∈ ph, o.cls ∈ b.classes)
+    (hpost : ∀ b' ∈ post, ∀ o ∈ ph, ∀ as, (o.cls, as) ∈ b' → tblAfter [b] o.cls = some as) :
+    (∀ sel fol cf fuel root, getChildrenH (pre ++ b :: post) ph sel fol cf fuel root = getChildrenH [b] ph sel fol cf fuel root) ∧
+    (∀ typ fol cf fuel root, getChildrenOfTypeH (pre ++ b :: post) ph typ fol cf fuel root
+        = getChildrenOfTypeH [b] ph typ fol cf fuel root) ∧
+    (∀ fuel x, getModelH (pre ++ b :: post) ph fuel x = getModelH [b] ph fuel x) ∧
+    (∀ typ fuel x, getParentOfTypeH (pre ++ b :: post) ph typ fuel x = getParentOfTypeH [b] ph typ fuel x) := by
+  have e := C05_history_view pre post b ph hb hpost
+  refine ⟨?_, ?_, ?_, ?_⟩ <;> intros <;>
+    simp only [getChildrenH, getChildrenOfTypeH, getModelH, getParentOfTypeH, e]
+
+/-- **After any history the navigation functions operate on the model as it was built.**  `h`: a
+heap whose objects carry the attribute lists that `b` gave their classes (what `process_node` run
+with the meta-model `b` produces; attribute names of a class are distinct), `ident`: which class
+object serves which rule.  Stripped of all meta data (`Heap.forget`: class identity, `parent`,
+instance dictionary — what Python stores) and viewed through the class table after
+`pre ++ b :: post`, it is `h` again.  So `C05_children_mem`, `C05_children_order`, … (stated for
+every heap) describe the calls after every such history. -/
+theorem C05_history_model (pre post : List MMBuild) (b : MMBuild) (ident : Nat → Nat) (h : Heap)
+    (hb : ∀ o ∈ h, tblAfter [b] (ident o.cls) = some (o.attrs.map (·.1)))
+    (hnd : ∀ o ∈ h, (o.attrs.map (·.1.name)).Nodup)
+    (hpost : ∀ b' ∈ post, ∀ o ∈ h, ∀ as, (ident o.cls, as) ∈ b' → as = o.attrs.map (·.1)) :
+    (h.forget ident).view (tblAfter (pre ++ b :: post)) = h := by
+  have e1 : tblAfter [b] = ClassTbl.empty.build b := by simp [tblAfter]
+  rw [C05_history_view pre post b (h.forget ident)]
+  · unfold Heap.forget PHeap.view
+    rw [List.map_map]
+    conv => rhs; rw [← List.map_id h]
+    apply List.map_congr_left
+    intro o ho
+    exact view_forget _ ident o (hb o ho) (hnd o ho)
+  · intro o' ho'
+    obtain ⟨o, ho, rfl⟩ := List.mem_map.mp ho'
+    apply Classical.byContradiction
+    intro hn
+    have hn' : ident o.cls ∉ b.classes := hn
+    have := hb o ho
+    rw [e1, build_untouched b _ _ hn'] at this
+    simp [ClassTbl.empty] at this
+  · intro b' hb' o' ho' as hm
+    obtain ⟨o, ho, rfl⟩ := List.mem_map.mp ho'
+    have hm' : (ident o.cls, as) ∈ b' := hm
+    rw [hpost b' hb' o ho as hm']
+    exact hb o ho
+
+/-! non-vacuity: two versions of a language served by the same classes.
+v1 `Plan: name=ID tasks+=Task; Task: name=ID ('then' next=Task)?;`
+v2 `Plan: name=ID tasks+=Task; Task: name=ID ('then' next=[Task])? ('{' subtasks+=Task '}')?;`
+class objects 0 (`Plan`) and 1 (`Task`) are handed to both; attribute names: 0 `name`, 1 `tasks`,
+2 `next`, 3 `subtasks`.  The v2 model `build then ship { compile }  ship then build`. -/
+def exV1 : MMBuild := [(0, [⟨0, false, true⟩, ⟨1, true, true⟩]), (1, [⟨0, false, true⟩, ⟨2, false, true⟩])]
+def exV2 : MMBuild :=
+  [(0, [⟨0, false, true⟩, ⟨1, true, true⟩]), (1, [⟨0, false, true⟩, ⟨2, false, false⟩, ⟨3, true, true⟩])]
+
+def exPlan : PHeap :=
+  [⟨0, 0, none, 0, 0, [(0, .one (.prim true)), (1, .many [.obj 1, .obj 3])]⟩,
+   ⟨1, 1, some 0, 0, 0, [(0, .one (.prim true)), (2, .one (.obj 3)), (3, .many [.obj 2])]⟩,
+   ⟨1, 1, some 1, 0, 0, [(0, .one (.prim true)), (2, .one .none), (3, .many [])]⟩,
+   ⟨1, 1, some 0, 0, 0, [(0, .one (.prim true)), (2, .one (.obj 1)), (3, .many [])]⟩]
+
+example : exPlan.conforms (tblAfter [exV1, exV2]) = true := by decide
+example : getChildrenH [exV1, exV2] exPlan (fun _ => true) (fun _ => true) false 5 0 = [0, 1, 2, 3] := by decide
+example : getChildrenH [exV1, exV2] exPlan (fun _ => true) (fun _ => true) true 5 1 = [2, 1] := by decide
+example : getChildrenOfTypeH [exV1, exV2] exPlan 1 (fun _ => true) false 5 3 = [3] := by decide
+/-- what a traversal driven by the attribute list of v1 (a list cached per class object and not
+renewed by the second construction) would return instead: `subtasks` not followed, the reference
+`next` followed -/
+example : getChildrenH [exV1] exPlan (fun _ => true) (fun _ => true) false 5 0 = [0, 1, 3] := by decide
+
+/-- The hypothesis about `post` in `C05_history_view` cannot be dropped: a later meta-model that
+sets the same class objects up for another grammar changes what the navigation functions see of
+the earlier model (a class object describes one grammar at a time). -/
+theorem C05_history_rebind_false :
+    ¬ ∀ (pre post : List MMBuild) (b : MMBuild) (ph : PHeap), (∀ o ∈ ph, o.cls ∈ b.classes) →
+      ph.view (tblAfter (pre ++ b :: post)) = ph.view (tblAfter [b]) := by
+  intro h
+  have := h [] [exV1] exV2 exPlan (by decide)
+  revert this
+  decide
 
 /-! ## non-vacuity: a concrete model
 
